@@ -598,7 +598,7 @@ pub fn execute(plan: &Plan, only_faults: Option<&[usize]>) -> Outcome {
     let _ = std::fs::remove_dir_all(&saved);
 
     // the truth log must still be valid (appends after a cache fault must not corrupt truth)
-    let bytes = store.log_bytes();
+    let bytes = store.log_bytes_settled();
     let frames = match truth::parse_log(&bytes) {
         Ok(f) => f,
         Err(e) => {
